@@ -18,6 +18,7 @@ var Registry = map[string]Rule{
 	"C12": C12,
 	"C13": C13,
 	"C14": C14,
+	"C16": C16,
 	"C17": C17,
 	"C20": C20,
 }
